@@ -238,8 +238,12 @@ def _hyp_campaign(mod, sub: Hyp, tier, seed, shard, nshards, part: Part, known_e
     deadline = _CTX.get("deadline")
     shrink_cap = 250 if tier == "quick" else 4000
 
+    from collections import deque
+
+    history = deque(maxlen=40)  # last cases judged in this process (for history-dependent failures)
+
     for round_no in range(sub.max_rounds):
-        state = {"after_fail": 0, "failing": set(), "capped": False}
+        state = {"after_fail": 0, "failing": set(), "capped": False, "first": None}
 
         def counted(case):
             st_ = state
@@ -269,7 +273,11 @@ def _hyp_campaign(mod, sub: Hyp, tier, seed, shard, nshards, part: Part, known_e
                     return
                 st_["failing"].add(key or jdump(case))
                 v.case = case
+                if st_["first"] is None:
+                    st_["first"] = {"bucket": v.bucket, "msg": v.msg, "case": case, "history": list(history)}
                 raise
+            finally:
+                history.append(case)
             part.record(info, case)
 
         phases = [Phase.generate, Phase.shrink]
@@ -296,13 +304,22 @@ def _hyp_campaign(mod, sub: Hyp, tier, seed, shard, nshards, part: Part, known_e
                 test()
             return
         except Violation as v:
-            part.violations.append({"sub": sub.name, "bucket": v.bucket, "msg": v.msg, "case": v.case})
+            part.violations.append({"sub": sub.name, "bucket": v.bucket, "msg": v.msg, "case": v.case, "history": []})
             ignored.add(v.bucket)
             n = max(1, n // 2)
         except hypothesis.errors.Flaky as e:
-            # A flaky judge is a harness defect, not a violation.
-            part.error = f"harness: flaky judge in {sub.name}: {e}"
-            return
+            # The judges are pure functions of the case, so a verdict that changes between two runs of the
+            # same case means the library's answer depended on earlier calls in this process. The first
+            # failing execution was a real violation on a real input: report it, with the calls before it.
+            f = state["first"]
+            if f is None:
+                part.error = f"harness: flaky generator in {sub.name}: {e}"
+                return
+            part.violations.append({"sub": sub.name, "bucket": "history-dependent:" + f["bucket"],
+                                    "msg": f["msg"] + "  [the same case passed when re-run: the result depends on earlier calls]",
+                                    "case": f["case"], "history": f["history"]})
+            ignored.add(f["bucket"])
+            n = max(1, n // 2)
         except hypothesis.errors.FailedHealthCheck as e:
             part.error = f"harness: health check in {sub.name}: {e}"
             return
@@ -398,6 +415,7 @@ def write_replay(prop_id, v, seed, tier) -> str:
         "bucket": v["bucket"],
         "message": v["msg"],
         "case": v["case"],
+        "history": v.get("history", []),
         "seed": seed,
         "tier": tier,
     }
@@ -428,9 +446,22 @@ def replay_case(mod, tier, payload):
         sub.setup()
     try:
         sub.judge(payload["case"])
-        return None
     except Violation as v:
         return v
+    hist = payload.get("history") or []
+    if hist:
+        # history-dependent failure: replay the calls that preceded it in the original process
+        for h in hist:
+            try:
+                sub.judge(h)
+            except Violation as v:
+                if jdump(h) == jdump(payload["case"]):
+                    return v
+        try:
+            sub.judge(payload["case"])
+        except Violation as v:
+            return v
+    return None
 
 
 def validate_evidence(ev: dict):
